@@ -334,3 +334,53 @@ Proof.
   split; [|exact C]. split; [exact A|]. split; [exact B|].
   specialize (Hf W HW). unfold alloc_feasible in Hf. apply Qleb_iff in Hf. exact Hf.
 Qed.
+
+(* ---------- small facts shared by the later files ---------- *)
+
+Lemma Qsum_map_plus {A} (f g : A -> Q) l :
+  Qsum (map (fun a => f a + g a) l) == Qsum (map f l) + Qsum (map g l).
+Proof. induction l as [|a l IH]; simpl; [ring|rewrite IH; ring]. Qed.
+
+Lemma Qsum_map_zero {A} (f : A -> Q) l : (forall a, In a l -> f a == 0) -> Qsum (map f l) == 0.
+Proof.
+  induction l as [|a l IH]; simpl; intros H; [reflexivity|].
+  rewrite (H a) by (left; reflexivity). rewrite IH; [ring|]. intros; apply H; right; assumption.
+Qed.
+
+Lemma mk_projects_complete P cs bin : forall enum p,
+  In p enum -> Qltb 0 (total_sat P p (supporters P p)) = true ->
+  (0 < nth p cs 0 -> In p (ids (fst (mk_projects P cs bin enum)))) /\
+  (nth p cs 0 <= 0 -> In p (snd (mk_projects P cs bin enum))).
+Proof.
+  induction enum as [|q r IH]; intros p Hin Hts; [destruct Hin|]. simpl.
+  destruct (mk_projects P cs bin r) as [ps zs] eqn:Em. simpl in IH.
+  destruct Hin as [->|Hin].
+  - rewrite Hts. destruct (Qltb 0 (nth p cs 0)) eqn:Ec; simpl.
+    + split; [intros _; left; reflexivity|]. apply Qltb_iff in Ec. intro. lra.
+    + split; [|intros _; left; reflexivity]. apply Qltb_false_iff in Ec. intro. lra.
+  - destruct (IH p Hin Hts) as [I1 I2].
+    destruct (Qltb 0 (total_sat P q (supporters P q))); [|split; assumption].
+    destruct (Qltb 0 (nth q cs 0)); simpl; split; intro H; try (right; auto); auto.
+Qed.
+
+Lemma total_sat_pos P p : wf_voters P -> supporters P p <> [] -> 0 < total_sat P p (supporters P p).
+Proof.
+  intros Hv Hne. unfold total_sat.
+  assert (Hall : forall i, In i (supporters P p) -> 0 < vmulQ P i * vutil P i p).
+  { intros i Hi. apply supporters_spec in Hi. destruct Hi as [Hi Hu]. pose proof (vmulQ_pos P i Hv Hi). nra. }
+  revert Hne Hall. generalize (supporters P p). intros l Hne Hall.
+  destruct l as [|i r]; [congruence|]. simpl.
+  assert (0 <= Qsum (map (fun i0 => vmulQ P i0 * vutil P i0 p) r)).
+  { apply Qsum_nonneg. rewrite Forall_forall. intros y Hy. apply in_map_iff in Hy. destruct Hy as [j [<- Hj]].
+    apply Qlt_le_weak. apply Hall. right. exact Hj. }
+  pose proof (Hall i (or_introl eq_refl)). lra.
+Qed.
+
+Lemma NoDup_app_split {A} (l1 l2 : list A) :
+  NoDup (l1 ++ l2) -> NoDup l2 /\ forall a, In a l1 -> In a l2 -> False.
+Proof.
+  induction l1 as [|y r IH]; simpl; intro H; [split; [exact H|intros ? []]|].
+  inversion H as [|? ? Hy Hr]; subst. destruct (IH Hr) as [I1 I2]. split; [exact I1|].
+  intros a [<-|Ha] Hin; [apply Hy; apply in_or_app; right; exact Hin|apply (I2 a Ha Hin)].
+Qed.
+
